@@ -84,6 +84,24 @@ func (a *authSrv) handler() refsmtp.AuthHandler {
 			case "malformed":
 				_, _, _ = io.ChallengeRaw("this is !!! not base64 ***")
 				return refsmtp.Action{Kind: refsmtp.Reply, Code: 501, Text: "5.5.2 Cannot decode response"}, true
+			case "reprompt", "reprompt-ok":
+				// the server asks for the user name (again) at this step, whatever the mechanism expects here, and
+				// takes whatever comes back; reprompt ends with 535, reprompt-ok with 235
+				resp, cancel, err := io.Challenge([]byte("Username:"))
+				if err != nil {
+					return refsmtp.Action{Kind: refsmtp.Drop}, true
+				}
+				if cancel {
+					return actAborted, true
+				}
+				set(func(r *authResult) { r.ClientLines = append(r.ClientLines, resp) })
+				if resp2, cancel2, err2 := io.Challenge([]byte("Username:")); err2 == nil && !cancel2 {
+					set(func(r *authResult) { r.ClientLines = append(r.ClientLines, resp2) })
+				}
+				if a.Fault == "reprompt-ok" {
+					return refsmtp.Action{}, true
+				}
+				return actBadCreds, true
 			case "extra":
 				resp, cancel, err := io.Challenge([]byte("unexpected extra challenge"))
 				if err != nil {
